@@ -217,6 +217,10 @@ func (s *Log) Nice(o TickOptions) {
 		return
 	}
 	firstN, lastN, base := s.spacingAtLevel(level, true)
+	if math.IsInf(base, 0) {
+		// No finite tick base satisfies o.
+		return
+	}
 	s.Min = math.Pow(base, firstN)
 	s.Max = math.Pow(base, lastN)
 	if neg {
